@@ -319,7 +319,8 @@ func (m *Model) Key() string {
 	for _, c := range m.Conns {
 		fmt.Fprintf(&sb, "c%d:", c.Idx)
 		if !c.Open {
-			sb.WriteString("closed;")
+			// what a gone connection left pending still matters: frames keep coming
+			fmt.Fprintf(&sb, "closed(pending=%d);", len(c.Pending))
 			continue
 		}
 		if !c.Used {
